@@ -46,16 +46,23 @@ type Script struct {
 	// exporter lists get the very same []component.ID slice.
 	ValidateFirst bool `json:"validate_first,omitempty"`
 	ShareSlices   bool `json:"share_slices,omitempty"`
+	// Shape[i]: how much the payload of that emission holds (topo.Shapes): "" / "item" — one resource, one
+	// scope, one item; "hollow" — a metric without data points / a profile without samples (logs, traces: as
+	// scope); "scope" — a resource with an empty scope; "resource" — a resource without scopes; "empty" —
+	// nothing at all (attributed through the request context).  Item-less payloads are payloads too: they
+	// must arrive wherever the configuration says, once per path.
+	Shape []string `json:"shape,omitempty"`
 }
 
 var cRoute = vt.New("C09", "graph-routing")
 
 func genRoute(t *rapid.T) Script {
-	s := Script{Topo: topo.Gen(t, topo.GenOpts{Invalid: 25, Profiles: true, Routing: true})}
+	s := Script{Topo: topo.Gen(t, topo.GenOpts{Invalid: 25, Profiles: true, Routing: true, Names: true})}
 	plan := topo.Evaluate(s.Topo)
 	for range plan.Recv {
 		s.Emit = append(s.Emit, rapid.SampledFrom([]string{"fresh", "readonly", "reuse", "fresh", "readonly"}).Draw(t, "emit"))
 		s.Ctx = append(s.Ctx, rapid.SampledFrom([]string{"background", "expired", "cancelled", "background"}).Draw(t, "ctx"))
+		s.Shape = append(s.Shape, rapid.SampledFrom([]string{"item", "scope", "empty", "item", "resource", "hollow", "item"}).Draw(t, "shape"))
 	}
 	if len(plan.Exp) > 0 && rapid.IntRange(0, 2).Draw(t, "failing-exporters") > 0 {
 		n := rapid.IntRange(1, 2).Draw(t, "fail-export-n")
@@ -97,9 +104,10 @@ func runRoute(s Script) (bool, string, *vt.Finding) {
 		w.FailExport[k] = v
 	}
 	ctx := context.Background()
-	key := fmt.Sprintf("%s\nemit %v ctx %v fail %v twice=%v share=%v", tp.Canon(), s.Emit, s.Ctx, s.FailExport, s.ValidateFirst, s.ShareSlices)
+	key := fmt.Sprintf("%s\nemit %v ctx %v fail %v twice=%v share=%v shape %v", tp.Canon(), s.Emit, s.Ctx, s.FailExport, s.ValidateFirst, s.ShareSlices, s.Shape)
 
 	cRoute.Class("class:"+plan.Class, fmt.Sprintf("pipelines:%d", len(tp.Pipelines)))
+	cRoute.Class(nameClasses(tp, plan.Class)...)
 
 	// The collector validates the configuration object before it builds the service from that same object
 	// (otelcol: xconfmap.Validate, then service.New): do the same, a validation that rewrites what it
@@ -248,6 +256,9 @@ func runRoute(s Script) (bool, string, *vt.Finding) {
 		return fail(vt.Failf("start-error", "Start failed: %v", err))
 	}
 	tagOf := map[string]string{}
+	var emissions []string           // for messages
+	bare := map[string]bool{}        // tags whose payload has no resource at all
+	sentShape := map[string]string{} // tag → shape of the payload as emitted
 	type sent struct {
 		v   any
 		tag string
@@ -261,11 +272,15 @@ func runRoute(s Script) (bool, string, *vt.Finding) {
 		if i < len(s.Emit) {
 			mode = s.Emit[i]
 		}
+		shape := "item"
+		if i < len(s.Shape) && s.Shape[i] != "" {
+			shape = s.Shape[i]
+		}
 		var v any
 		how := "fresh"
 		switch mode {
 		case "readonly":
-			v = topo.NewPayload(sig, tag)
+			v = topo.NewPayloadShape(sig, tag, shape)
 			topo.MarkReadOnly(v)
 			how = "read-only (marked by the emitter)"
 			cRoute.Class("emit:read-only")
@@ -280,10 +295,30 @@ func runRoute(s Script) (bool, string, *vt.Finding) {
 			}
 		}
 		if v == nil {
-			v = topo.NewPayload(sig, tag)
+			v = topo.NewPayloadShape(sig, tag, shape)
 		}
 		tagOf[rk] = tag
-		ectx, cancel := context.Background(), context.CancelFunc(func() {})
+		shape = topo.ShapeOf(v) // of a re-emitted object: its own; logs / traces have no "hollow"
+		sentShape[tag] = shape
+		bare[tag] = shape == "empty"
+		wasFresh := how == "fresh"
+		how = shape + "-shaped " + how
+		{
+			n := "1"
+			if len(plan.Deliveries[rk]) != 1 {
+				n = ">=2" // a fan-out somewhere on the way
+				if len(plan.Deliveries[rk]) == 0 {
+					n = "0"
+				}
+			}
+			cRoute.Class("payload:"+shape, "payload:"+shape+"/expected-arrivals:"+n)
+			if shape != "item" {
+				cRoute.Class("payload:item-less/" + sig)
+			}
+		}
+		// the request context carries the tag too: that is all that tells whose arrival a payload without
+		// any resource is
+		ectx, cancel := topo.WithTag(context.Background(), tag), context.CancelFunc(func() {})
 		if i < len(s.Ctx) {
 			switch s.Ctx[i] {
 			case "expired":
@@ -310,6 +345,7 @@ func runRoute(s Script) (bool, string, *vt.Finding) {
 				cRoute.Class("emission-reaches-failing-exporter/ctx-done")
 			}
 		}
+		emissions = append(emissions, fmt.Sprintf("%s at %s: %s", tag, rk, how))
 		err, f := phase("consume", func() error { return w.InjectPayloadCtx(ectx, rk, v) })
 		cancel()
 		if f != nil {
@@ -319,7 +355,7 @@ func runRoute(s Script) (bool, string, *vt.Finding) {
 			return fail(vt.Failf("inject-error", "%s payload emitted by %s: %v", how, rk, err))
 		}
 		by := "emitter"
-		if mode != "readonly" && how == "fresh" {
+		if mode != "readonly" && wasFresh {
 			by = "collector"
 		}
 		if tag == fmt.Sprintf("T%d", i) { // a new object
@@ -466,14 +502,122 @@ func runRoute(s Script) (bool, string, *vt.Finding) {
 			return true, key, vt.Failf("retained-payload-mutated", "exporter %s received tag %s with trail %q; the payload it retained (MutatesData=false) later read %q", r.Exporter, r.Tag, r.Trail, r.Late)
 		}
 	}
-	m := topo.MatchRecords(plan, tagOf, recs, 200000)
+	// what the test components hand on has the shape of what they got; the wiring in between must not
+	// change it either (and a payload without any resource is attributed through the context)
+	for _, r := range recs {
+		if sh, ok := sentShape[r.Tag]; ok && ((sh == "item") != (r.Shape == "item") || (sh == "empty") != (r.Shape == "empty")) {
+			return true, key, vt.Failf("payload-shape", "exporter %s received the payload tagged %s as %q, it was emitted as %q", r.Exporter, r.Tag, r.Shape, sh)
+		}
+	}
+	m := topo.MatchRecordsBare(plan, tagOf, bare, recs, 200000)
 	switch {
 	case m.Stage != "":
-		return true, key, vt.Failf("routing/"+m.Stage, "%s", m.Msg)
+		return true, key, vt.Failf("routing/"+m.Stage, "%s (emissions: %s)", m.Msg, strings.Join(emissions, "; "))
 	case !m.Decided:
 		cRoute.Class("instance-match-budget-exhausted")
 	}
 	return nt, key, nil
+}
+
+// nameClasses labels the confusable spellings among the ids of the configuration.
+func nameClasses(tp topo.Topology, class string) []string {
+	set := map[string]bool{}
+	isConn := map[string]bool{}
+	for _, c := range tp.Connectors {
+		isConn[c.ID] = true
+	}
+	caseOnly := func(a, b string) bool { return a != b && strings.ToLower(a) == strings.ToLower(b) }
+	pairs := func(ids []string, what string) {
+		for i, a := range ids {
+			for _, b := range ids[i+1:] {
+				if caseOnly(a, b) {
+					set["ids-differ-only-in-case:"+what] = true
+					if class == "valid" {
+						set["ids-differ-only-in-case:"+what+"/valid"] = true
+					}
+				}
+				if a != b && (strings.HasPrefix(a, b) || strings.HasPrefix(b, a)) {
+					set["id-is-prefix-of-another:"+what] = true
+				}
+			}
+		}
+	}
+	uniq := func(xs []string) []string {
+		seen := map[string]bool{}
+		var out []string
+		for _, x := range xs {
+			if !seen[x] {
+				seen[x] = true
+				out = append(out, x)
+			}
+		}
+		return out
+	}
+	bySig := map[string][3][]string{} // signal → receivers, exporters, pipeline ids
+	var conns []string
+	for _, pl := range tp.Pipelines {
+		e := bySig[pl.Signal]
+		for _, r := range pl.Receivers {
+			if isConn[r] {
+				conns = append(conns, r)
+			} else {
+				e[0] = append(e[0], r)
+			}
+		}
+		for _, x := range pl.Exporters {
+			if isConn[x] {
+				conns = append(conns, x)
+			} else {
+				e[1] = append(e[1], x)
+			}
+		}
+		e[2] = append(e[2], pl.ID())
+		bySig[pl.Signal] = e
+		pairs(pl.Processors, "processors-of-one-pipeline")
+		for _, id := range append(append(append([]string{}, pl.Receivers...), pl.Processors...), pl.Exporters...) {
+			f := strings.SplitN(id, "/", 2)
+			switch {
+			case len(f) == 1:
+				set["id-without-name"] = true
+			case strings.Contains(f[1], "/"):
+				set["name-containing-a-slash"] = true
+			}
+			for _, r := range id {
+				if r > 127 {
+					set["non-ascii-name"] = true
+				}
+			}
+		}
+		if strings.Contains(pl.Name, "/") {
+			set["pipeline-name-containing-a-slash"] = true
+		}
+		for _, r := range pl.Name {
+			if r > 127 {
+				set["non-ascii-pipeline-name"] = true
+			}
+		}
+	}
+	for _, e := range bySig {
+		pairs(uniq(e[0]), "receivers-of-one-signal")
+		pairs(uniq(e[1]), "exporters-of-one-signal")
+		pairs(e[2], "pipelines-of-one-signal")
+	}
+	pairs(uniq(conns), "connectors-in-use")
+	byType := map[string]int{}
+	for _, c := range uniq(conns) {
+		byType[strings.SplitN(c, "/", 2)[0]]++
+	}
+	for _, n := range byType {
+		if n > 1 {
+			set["connectors-of-one-type-in-use"] = true
+		}
+	}
+	var out []string
+	for k := range set {
+		out = append(out, k)
+	}
+	sort.Strings(out)
+	return out
 }
 
 func TestGraphRouting(t *testing.T) {
